@@ -429,3 +429,5 @@ V("c07-benign-expand-target-if", "C07", "rich/table.py", "            _max_width
 V("c10-progress-start-leaks-on-raise", "C10", PR, "            try:\n                self.refresh()\n            except BaseException:\n                # __exit__ will not run if __enter__ raises, so undo the above here\n                self._started = False\n                self.console.show_cursor(True)\n                self._disable_redirect_io()\n                self.console.pop_render_hook()\n                raise\n", "            self.refresh()\n", "R10.9")
 V("c10-progress-start-handler-forgets-hook", "C10", PR, "                self._disable_redirect_io()\n                self.console.pop_render_hook()\n                raise\n", "                self._disable_redirect_io()\n                raise\n", "R10.9")
 V("c10-benign-progress-start-handler-stop", "C10", PR, "                self._started = False\n                self.console.show_cursor(True)\n                self._disable_redirect_io()\n                self.console.pop_render_hook()\n                raise\n", "                self.stop()\n                raise\n", None)
+V("c17-range-split-drops-blank", "C17", "rich/syntax.py", "        lines = text.split(\"\\n\", allow_blank=bool(self.line_range))\n", "        lines = text.split(\"\\n\")\n", "R17.9")
+V("c17-benign-range-split-allow-blank-var", "C17", "rich/syntax.py", "        lines = text.split(\"\\n\", allow_blank=bool(self.line_range))\n", "        keep_blank = self.line_range is not None\n        lines = text.split(\"\\n\", allow_blank=keep_blank)\n", None)
